@@ -160,10 +160,26 @@ def run(ck):
                     ck.check(isinstance(ev, VTens) and isinstance(vk, VTens) and ev.obj is vk.obj, "C06.R1", inst + ":model gradient at the chain end", msite, "effective_energy_gradient is not evaluated on the k-step chain states")
                     ck.check(eg[0][5].get("self").inst is am.inst, "C06.R1", inst + ":model gradient of the amplitude network", msite, "the model gradient is not taken from rbm_am")
                     red = eg[0][5].get("reduce")
-                    ck.check(isinstance(red, VConst) and red.value is True, "C06.R1", inst + ":summed model gradient", msite, "the model gradient is not the batch sum")
                     gm = eg[0][6]
+                    # what the call hands back is the sum over the chains, or (another convention of the helper) already their mean:
+                    # told apart by value - the mean carries the inverse of the number of chains in every term
+                    bn_at = T.sym("Bn").single_atom()
+                    pws = {dict(m_).get(bn_at, 0) for m_ in gm.terms} if gm is not None and gm.terms else None
+                    if isinstance(red, VConst) and red.value is True and pws == {0}:
+                        ck.ok("C06.R1", inst + ":summed model gradient", msite)
+                        gsum = gm
+                    elif pws == {0}:
+                        ck.ok("C06.R1", inst + ":summed model gradient (no division inside the call)", msite)
+                        gsum = gm
+                    elif pws == {-1}:
+                        ck.ok("C06.R1", inst + ":model gradient averaged over the chains inside the call", msite)
+                        gsum = gm * T.sym("Bn")
+                    else:
+                        ck.undecided("C06.R1", inst + ":summed model gradient", msite, "whether the model gradient is the sum or the mean over the chains is not recognised")
+                        gsum = None
                     P0 = (T.sym("g_rbm_am") if restated is None else restated[0][6]) * T.inv(T.sym("Bs"))
-                    want0 = P0 - gm * T.inv(T.sym("Bn")) if gm is not None else None
+                    want0 = P0 - gsum * T.inv(T.sym("Bn")) if gsum is not None else None
+                    gm = gsum if gsum is not None else gm
                     got0 = items[0].term
                     if want0 is None or got0 is None:
                         ck.undecided("C06.R1", inst + ":amplitude update", msite, "no term")
